@@ -15,7 +15,11 @@ ASSUMPTIONS = ["pending extents are flushed by 330 filler bytes in the probe (ex
 
 
 def hostile_prefix(r):
-    k = r.randrange(6)
+    k = r.randrange(7)
+    if k == 6:
+        ln = r.choice([0xFFFF, 0x1000, 400, 13])
+        return "hdr-badcrc len=%d" % ln, streams.noise(r) + streams.header_only(ln, r.choice([0xC0, 0x00, 0x80]), good=False) \
+            + bytes(r.getrandbits(8) for _ in range(r.choice([0, 2, 9])))
     if k == 0:
         ln = r.randrange(0, 13)
         fl = r.getrandbits(8)
@@ -47,6 +51,8 @@ def run(ctx):
                    streams.header_only(ln, fl) + bytes(r.getrandbits(8) for _ in range(r.choice([0, 2, 9]))))
                   for ln in range(13) for fl in flagset]
     systematic += [("ack seq=%d" % q, streams.ack(q, rt)) for q in range(4) for rt in (False, True)]
+    systematic += [("hdr-badcrc len=%d" % ln, streams.header_only(ln, fl, good=False))
+                   for ln in (0xFFFF, 0x8000, 0x1000, 400) for fl in (0xC0, 0x80, 0x00, 0x01)]
     nrandom = ctx.scale(150, 4000)
     for si in range(len(systematic) + nrandom):
         label, pre = systematic[si] if si < len(systematic) else hostile_prefix(r)
